@@ -186,12 +186,22 @@ func clusterTrace(args []string) error {
 		}
 		var wg sync.WaitGroup
 		var mu sync.Mutex
+		clientsStop := make(chan struct{}) // closed when the fault injector is done: clients run as long as faults do
+		seeds := make([]int64, *clients)
+		for ci := range seeds {
+			seeds[ci] = rng.Int63()
+		}
 		for ci := 0; ci < *clients; ci++ {
 			wg.Add(1)
 			go func(ci int) {
 				defer wg.Done()
-				r := rand.New(rand.NewSource(rng.Int63() + int64(ci)))
+				r := rand.New(rand.NewSource(seeds[ci]))
 				for i := 0; i < *ops; i++ {
+					select {
+					case <-clientsStop:
+						return
+					default:
+					}
 					op := opID.Add(1)
 					n := pick(r)
 					if n.stopped {
@@ -232,7 +242,7 @@ func clusterTrace(args []string) error {
 							emit("", "c.fail", "op", op, "err", err.Error())
 						}
 					}
-					time.Sleep(time.Duration(r.Intn(8)) * time.Millisecond)
+					time.Sleep(time.Duration(4+r.Intn(12)) * time.Millisecond)
 				}
 			}(ci)
 		}
@@ -240,17 +250,22 @@ func clusterTrace(args []string) error {
 		stopF := make(chan struct{})
 		var fwg sync.WaitGroup
 		fwg.Add(1)
+		frng := rand.New(rand.NewSource(rng.Int63()))
 		go func() {
 			defer fwg.Done()
+			defer func() {
+				time.Sleep(400 * time.Millisecond)
+				close(clientsStop)
+			}()
 			ids := c.IDs()
 			for f := 0; f < *faults; f++ {
 				select {
 				case <-stopF:
 					return
-				case <-time.After(time.Duration(300+rng.Intn(500)) * time.Millisecond):
+				case <-time.After(time.Duration(150+frng.Intn(350)) * time.Millisecond):
 				}
 				l := c.Leader(3 * time.Second)
-				kind := rng.Intn(6)
+				kind := frng.Intn(6)
 				mu.Lock()
 				st.Faults++
 				mu.Unlock()
@@ -261,16 +276,16 @@ func clusterTrace(args []string) error {
 				case kind == 1 && l != nil:
 					emit("", "note", "fault", "isolate-leader", "node", l.ID)
 					c.nw.Isolate(l.ID, ids)
-					time.Sleep(time.Duration(700+rng.Intn(900)) * time.Millisecond)
+					time.Sleep(time.Duration(700+frng.Intn(900)) * time.Millisecond)
 					c.nw.Heal()
 					emit("", "note", "fault", "heal")
 				case kind == 2:
 					fl := c.Followers()
 					if len(fl) > 0 {
-						v := fl[rng.Intn(len(fl))]
+						v := fl[frng.Intn(len(fl))]
 						emit("", "note", "fault", "isolate-follower", "node", v.ID)
 						c.nw.Isolate(v.ID, ids)
-						time.Sleep(time.Duration(500+rng.Intn(700)) * time.Millisecond)
+						time.Sleep(time.Duration(500+frng.Intn(700)) * time.Millisecond)
 						c.nw.Heal()
 						emit("", "note", "fault", "heal")
 					}
@@ -297,13 +312,13 @@ func clusterTrace(args []string) error {
 							}
 						}
 					}
-					time.Sleep(time.Duration(800+rng.Intn(900)) * time.Millisecond)
+					time.Sleep(time.Duration(800+frng.Intn(900)) * time.Millisecond)
 					c.nw.Heal()
 					emit("", "note", "fault", "heal")
 				case kind == 4:
 					// graceful restart of a random node
 					nodesMu.RLock()
-					i := rng.Intn(len(c.nodes))
+					i := frng.Intn(len(c.nodes))
 					v := c.nodes[i]
 					nodesMu.RUnlock()
 					emit("", "note", "fault", "restart", "node", v.ID)
@@ -319,7 +334,7 @@ func clusterTrace(args []string) error {
 					if l != nil {
 						fl := c.Followers()
 						if len(fl) > 0 {
-							v := fl[rng.Intn(len(fl))]
+							v := fl[frng.Intn(len(fl))]
 							emit("", "note", "fault", "transfer", "to", v.ID)
 							l.Store.Stepdown(false, v.ID)
 						}
